@@ -143,7 +143,7 @@ def gen_file_frame(rng):
     import pandas as pd
     n = rng.randint(1, 8)
     cols = {}
-    for nm in rng.sample(['id', 'amount', 'when', 'ünï', 'flag', 'n2'], rng.randint(1, 4)):
+    for nm in rng.sample(['id', 'amount', 'when', 'ünï', 'flag', 'n2', 'resistance_\u2126', 'length_\u212b', 'cafe\u0301_count'], rng.randint(1, 4)):
         k = rng.choice(['int', 'real', 'date', 'bool'])
         if k == 'int':
             cols[nm] = [rng.randint(-5, 50) for _ in range(n)]
@@ -313,6 +313,58 @@ def layer_b_case(arg):
                             % (dflags, (a or '')[:200], (b or '')[:200]))
         if dv.failures == 0 and os.path.exists(outp):
             problems.append('detect: nothing failed but an output file was left behind')
+    # ---- several command lines in ONE process (tdda.constraints.console.main_with_argv, as an embedding program or a test
+    # suite drives them): each behaves as the same command line in a process of its own
+    if idx % 3 == 0:
+        sess = []
+        vflag_sets = [['--epsilon', '0.5'], ['-t', 'strict'], [], ['-f']]
+        dflag_sets = [['--write-all', '--index', '--int'], [], ['--no-output-fields'], ['--no-per-constraint'], []]
+        for k_ in range(rng.randint(2, 4)):
+            if rng.random() < 0.5:
+                sess.append(['verify'] + rng.choice(vflag_sets) + [data2, tdda])
+            else:
+                sess.append(['detect'] + rng.choice(dflag_sets) + [data2, tdda, os.path.join(d, 'sess%d.csv' % k_)])
+        if rng.random() < 0.5:
+            sess.sort(key=lambda a_: -len(a_))           # the command lines with most options first
+        driver = os.path.join(d, 'session.py')
+        with open(driver, 'w') as f_:
+            f_.write("import sys, json, io, contextlib\n"
+                     "from tdda.constraints.console import main_with_argv\n"
+                     "res = []\n"
+                     "for argv in json.load(open(sys.argv[1])):\n"
+                     "    buf = io.StringIO()\n"
+                     "    try:\n"
+                     "        with contextlib.redirect_stdout(buf):\n"
+                     "            main_with_argv(['tdda'] + argv)\n"
+                     "        rc = 0\n"
+                     "    except SystemExit as e:\n"
+                     "        rc = e.code\n"
+                     "    res.append([rc if isinstance(rc, int) else (0 if rc is None else 1), buf.getvalue()])\n"
+                     "json.dump(res, open(sys.argv[2], 'w'))\n")
+        with open(os.path.join(d, 'session.json'), 'w') as f_:
+            json.dump(sess, f_)
+        env_ = dict(os.environ, PYTHONPATH=lib.REPO, PYTHONHASHSEED='0', TDDA_VERIF='1')
+        ps = subprocess.run([lib.PY, driver, os.path.join(d, 'session.json'), os.path.join(d, 'session.out')], cwd=d, env=env_,
+                            stdout=subprocess.PIPE, stderr=subprocess.PIPE, text=True, timeout=600)
+        if ps.returncode != 0 or not os.path.exists(os.path.join(d, 'session.out')):
+            problems.append('a session of command lines %r in one process ended with status %d: %s'
+                            % (sess, ps.returncode, ps.stderr[-300:]))
+        else:
+            sres = json.load(open(os.path.join(d, 'session.out')))
+            for k_, (argv_, (src, sout)) in enumerate(zip(sess, sres)):
+                own = list(argv_)
+                if argv_[0] == 'detect':
+                    own[-1] = os.path.join(d, 'own%d.csv' % k_)
+                orc, oout, oerr = cli(own, d)
+                figures = lambda t_: re.findall(r'(?:Constraints|Records) (?:passing|failing): +(\d+)', t_)
+                sfile = open(argv_[-1], encoding='utf-8').read() if argv_[0] == 'detect' and os.path.exists(argv_[-1]) else None
+                ofile = open(own[-1], encoding='utf-8').read() if argv_[0] == 'detect' and os.path.exists(own[-1]) else None
+                if figures(sout) != figures(oout) or sfile != ofile:
+                    problems.append('command line %d of the session %r in one process: figures %r, output file %r; the same '
+                                    'command line in a process of its own: figures %r, output file %r'
+                                    % (k_, sess, figures(sout), (sfile or '')[:150] if sfile is not None else None,
+                                       figures(oout), (ofile or '')[:150] if ofile is not None else None))
+                    break
     # ---- constraints that were NOT discovered from this file (hand-written: types the data must be repaired to,
     # bounds, a field the data lacks): command line and library must still agree, for CSV and for parquet
     df3 = df.copy()
